@@ -18,10 +18,19 @@ Model of
   * src/encode/{uncompressed,sub_sampled,bi_planar,bc}.rs  the encoder lists (colour sets, flags,
                     which kind of body each encoder has)
 
-The tables are PINNED: they are literal Lean data, never read from the Rust source.  They are
-compared with the library exhaustively on every run (cases `M`, `H` of the C19 stream).
+The ROWS of the header / detection tables follow the source: the DXGI rows (`dxgiTable`, `dxgiValid`),
+`specialCases`, the FourCC tables, `maskRows` (= `KNOWN_PIXEL_FORMATS`), `TryFrom<Format> for DxgiFormat / FourCC`
+(`Format.row .dxgi / .fourCC`) and the explicit arms of `From<Format> for PixelInfo` are taken from `SrcTables.lean`,
+which tools/extract_tables.py regenerates from /repo's working tree on every check run. The theorems of
+`Theorems/C19.lean` that are `decide` over them are therefore re-checked for the rows the code has now.
+PINNED (literal Lean data): the `Format` inductive, per format the name, the layout the format definition gives
+(`Format.spec .px`, the specification side of `metadata_consistent`) and the decoder's native colour, and the
+encoder lists (`encoderSet`, transcribed from the macro-built lists of src/encode/*.rs). Everything is compared with
+the library exhaustively on every run (cases `M`, `H` of the C19 stream); for the translated rows that comparison
+validates the translator.
 -/
 import DdsModel.Layout
+import DdsModel.SrcTables
 namespace Dds.C19
 open Dds
 
@@ -70,6 +79,158 @@ def Format.all : List Format :=
    .ASTC_10X10_UNORM, .ASTC_12X10_UNORM, .ASTC_12X12_UNORM, .BC3_UNORM_RXGB,
    .BC3_UNORM_NORMAL]
 
+/-- `Dds.C19.Format` and `Dds.Format` (FormatEnum.lean) are the same enumeration; the translated rows name the latter -/
+def Format.toH : Format → Dds.Format
+  | .R8G8B8_UNORM => .R8G8B8_UNORM
+  | .B8G8R8_UNORM => .B8G8R8_UNORM
+  | .R8G8B8A8_UNORM => .R8G8B8A8_UNORM
+  | .R8G8B8A8_SNORM => .R8G8B8A8_SNORM
+  | .B8G8R8A8_UNORM => .B8G8R8A8_UNORM
+  | .B8G8R8X8_UNORM => .B8G8R8X8_UNORM
+  | .B5G6R5_UNORM => .B5G6R5_UNORM
+  | .B5G5R5A1_UNORM => .B5G5R5A1_UNORM
+  | .B4G4R4A4_UNORM => .B4G4R4A4_UNORM
+  | .A4B4G4R4_UNORM => .A4B4G4R4_UNORM
+  | .R8_SNORM => .R8_SNORM
+  | .R8_UNORM => .R8_UNORM
+  | .R8G8_UNORM => .R8G8_UNORM
+  | .R8G8_SNORM => .R8G8_SNORM
+  | .A8_UNORM => .A8_UNORM
+  | .R16_UNORM => .R16_UNORM
+  | .R16_SNORM => .R16_SNORM
+  | .R16G16_UNORM => .R16G16_UNORM
+  | .R16G16_SNORM => .R16G16_SNORM
+  | .R16G16B16A16_UNORM => .R16G16B16A16_UNORM
+  | .R16G16B16A16_SNORM => .R16G16B16A16_SNORM
+  | .R10G10B10A2_UNORM => .R10G10B10A2_UNORM
+  | .R11G11B10_FLOAT => .R11G11B10_FLOAT
+  | .R9G9B9E5_SHAREDEXP => .R9G9B9E5_SHAREDEXP
+  | .R16_FLOAT => .R16_FLOAT
+  | .R16G16_FLOAT => .R16G16_FLOAT
+  | .R16G16B16A16_FLOAT => .R16G16B16A16_FLOAT
+  | .R32_FLOAT => .R32_FLOAT
+  | .R32G32_FLOAT => .R32G32_FLOAT
+  | .R32G32B32_FLOAT => .R32G32B32_FLOAT
+  | .R32G32B32A32_FLOAT => .R32G32B32A32_FLOAT
+  | .R10G10B10_XR_BIAS_A2_UNORM => .R10G10B10_XR_BIAS_A2_UNORM
+  | .AYUV => .AYUV
+  | .Y410 => .Y410
+  | .Y416 => .Y416
+  | .R1_UNORM => .R1_UNORM
+  | .R8G8_B8G8_UNORM => .R8G8_B8G8_UNORM
+  | .G8R8_G8B8_UNORM => .G8R8_G8B8_UNORM
+  | .UYVY => .UYVY
+  | .YUY2 => .YUY2
+  | .Y210 => .Y210
+  | .Y216 => .Y216
+  | .NV12 => .NV12
+  | .P010 => .P010
+  | .P016 => .P016
+  | .BC1_UNORM => .BC1_UNORM
+  | .BC2_UNORM => .BC2_UNORM
+  | .BC2_UNORM_PREMULTIPLIED_ALPHA => .BC2_UNORM_PREMULTIPLIED_ALPHA
+  | .BC3_UNORM => .BC3_UNORM
+  | .BC3_UNORM_PREMULTIPLIED_ALPHA => .BC3_UNORM_PREMULTIPLIED_ALPHA
+  | .BC4_UNORM => .BC4_UNORM
+  | .BC4_SNORM => .BC4_SNORM
+  | .BC5_UNORM => .BC5_UNORM
+  | .BC5_SNORM => .BC5_SNORM
+  | .BC6H_UF16 => .BC6H_UF16
+  | .BC6H_SF16 => .BC6H_SF16
+  | .BC7_UNORM => .BC7_UNORM
+  | .ASTC_4X4_UNORM => .ASTC_4X4_UNORM
+  | .ASTC_5X4_UNORM => .ASTC_5X4_UNORM
+  | .ASTC_5X5_UNORM => .ASTC_5X5_UNORM
+  | .ASTC_6X5_UNORM => .ASTC_6X5_UNORM
+  | .ASTC_6X6_UNORM => .ASTC_6X6_UNORM
+  | .ASTC_8X5_UNORM => .ASTC_8X5_UNORM
+  | .ASTC_8X6_UNORM => .ASTC_8X6_UNORM
+  | .ASTC_8X8_UNORM => .ASTC_8X8_UNORM
+  | .ASTC_10X5_UNORM => .ASTC_10X5_UNORM
+  | .ASTC_10X6_UNORM => .ASTC_10X6_UNORM
+  | .ASTC_10X8_UNORM => .ASTC_10X8_UNORM
+  | .ASTC_10X10_UNORM => .ASTC_10X10_UNORM
+  | .ASTC_12X10_UNORM => .ASTC_12X10_UNORM
+  | .ASTC_12X12_UNORM => .ASTC_12X12_UNORM
+  | .BC3_UNORM_RXGB => .BC3_UNORM_RXGB
+  | .BC3_UNORM_NORMAL => .BC3_UNORM_NORMAL
+
+/-- inverse of `Format.toH` -/
+def Format.ofH : Dds.Format → Format
+  | .R8G8B8_UNORM => .R8G8B8_UNORM
+  | .B8G8R8_UNORM => .B8G8R8_UNORM
+  | .R8G8B8A8_UNORM => .R8G8B8A8_UNORM
+  | .R8G8B8A8_SNORM => .R8G8B8A8_SNORM
+  | .B8G8R8A8_UNORM => .B8G8R8A8_UNORM
+  | .B8G8R8X8_UNORM => .B8G8R8X8_UNORM
+  | .B5G6R5_UNORM => .B5G6R5_UNORM
+  | .B5G5R5A1_UNORM => .B5G5R5A1_UNORM
+  | .B4G4R4A4_UNORM => .B4G4R4A4_UNORM
+  | .A4B4G4R4_UNORM => .A4B4G4R4_UNORM
+  | .R8_SNORM => .R8_SNORM
+  | .R8_UNORM => .R8_UNORM
+  | .R8G8_UNORM => .R8G8_UNORM
+  | .R8G8_SNORM => .R8G8_SNORM
+  | .A8_UNORM => .A8_UNORM
+  | .R16_UNORM => .R16_UNORM
+  | .R16_SNORM => .R16_SNORM
+  | .R16G16_UNORM => .R16G16_UNORM
+  | .R16G16_SNORM => .R16G16_SNORM
+  | .R16G16B16A16_UNORM => .R16G16B16A16_UNORM
+  | .R16G16B16A16_SNORM => .R16G16B16A16_SNORM
+  | .R10G10B10A2_UNORM => .R10G10B10A2_UNORM
+  | .R11G11B10_FLOAT => .R11G11B10_FLOAT
+  | .R9G9B9E5_SHAREDEXP => .R9G9B9E5_SHAREDEXP
+  | .R16_FLOAT => .R16_FLOAT
+  | .R16G16_FLOAT => .R16G16_FLOAT
+  | .R16G16B16A16_FLOAT => .R16G16B16A16_FLOAT
+  | .R32_FLOAT => .R32_FLOAT
+  | .R32G32_FLOAT => .R32G32_FLOAT
+  | .R32G32B32_FLOAT => .R32G32B32_FLOAT
+  | .R32G32B32A32_FLOAT => .R32G32B32A32_FLOAT
+  | .R10G10B10_XR_BIAS_A2_UNORM => .R10G10B10_XR_BIAS_A2_UNORM
+  | .AYUV => .AYUV
+  | .Y410 => .Y410
+  | .Y416 => .Y416
+  | .R1_UNORM => .R1_UNORM
+  | .R8G8_B8G8_UNORM => .R8G8_B8G8_UNORM
+  | .G8R8_G8B8_UNORM => .G8R8_G8B8_UNORM
+  | .UYVY => .UYVY
+  | .YUY2 => .YUY2
+  | .Y210 => .Y210
+  | .Y216 => .Y216
+  | .NV12 => .NV12
+  | .P010 => .P010
+  | .P016 => .P016
+  | .BC1_UNORM => .BC1_UNORM
+  | .BC2_UNORM => .BC2_UNORM
+  | .BC2_UNORM_PREMULTIPLIED_ALPHA => .BC2_UNORM_PREMULTIPLIED_ALPHA
+  | .BC3_UNORM => .BC3_UNORM
+  | .BC3_UNORM_PREMULTIPLIED_ALPHA => .BC3_UNORM_PREMULTIPLIED_ALPHA
+  | .BC4_UNORM => .BC4_UNORM
+  | .BC4_SNORM => .BC4_SNORM
+  | .BC5_UNORM => .BC5_UNORM
+  | .BC5_SNORM => .BC5_SNORM
+  | .BC6H_UF16 => .BC6H_UF16
+  | .BC6H_SF16 => .BC6H_SF16
+  | .BC7_UNORM => .BC7_UNORM
+  | .ASTC_4X4_UNORM => .ASTC_4X4_UNORM
+  | .ASTC_5X4_UNORM => .ASTC_5X4_UNORM
+  | .ASTC_5X5_UNORM => .ASTC_5X5_UNORM
+  | .ASTC_6X5_UNORM => .ASTC_6X5_UNORM
+  | .ASTC_6X6_UNORM => .ASTC_6X6_UNORM
+  | .ASTC_8X5_UNORM => .ASTC_8X5_UNORM
+  | .ASTC_8X6_UNORM => .ASTC_8X6_UNORM
+  | .ASTC_8X8_UNORM => .ASTC_8X8_UNORM
+  | .ASTC_10X5_UNORM => .ASTC_10X5_UNORM
+  | .ASTC_10X6_UNORM => .ASTC_10X6_UNORM
+  | .ASTC_10X8_UNORM => .ASTC_10X8_UNORM
+  | .ASTC_10X10_UNORM => .ASTC_10X10_UNORM
+  | .ASTC_12X10_UNORM => .ASTC_12X10_UNORM
+  | .ASTC_12X12_UNORM => .ASTC_12X12_UNORM
+  | .BC3_UNORM_RXGB => .BC3_UNORM_RXGB
+  | .BC3_UNORM_NORMAL => .BC3_UNORM_NORMAL
+
 /-- src/color/mod.rs `Channels` -/
 inductive Channels where
   | gray | alpha | rgb | rgba
@@ -93,91 +254,103 @@ def ColorFormat.all : List ColorFormat :=
 
 /-! ## Format rows: name, pixel layout, native colour, canonical DXGI code, FourCC written -/
 
+/-- the pinned part of a format's row -/
+structure FormatSpec where
+  name : String
+  /-- the layout of the format as the format definition gives it (DXGI documentation) — specification, pinned -/
+  px : PixelInfo
+  /-- native colour of the decoder (`Format::color`) -/
+  color : ColorFormat
+
+def Format.spec : Format → FormatSpec
+  | .R8G8B8_UNORM => ⟨"R8G8B8_UNORM", .fixed 3, ⟨.rgb, .u8⟩⟩
+  | .B8G8R8_UNORM => ⟨"B8G8R8_UNORM", .fixed 3, ⟨.rgb, .u8⟩⟩
+  | .R8G8B8A8_UNORM => ⟨"R8G8B8A8_UNORM", .fixed 4, ⟨.rgba, .u8⟩⟩
+  | .R8G8B8A8_SNORM => ⟨"R8G8B8A8_SNORM", .fixed 4, ⟨.rgba, .u8⟩⟩
+  | .B8G8R8A8_UNORM => ⟨"B8G8R8A8_UNORM", .fixed 4, ⟨.rgba, .u8⟩⟩
+  | .B8G8R8X8_UNORM => ⟨"B8G8R8X8_UNORM", .fixed 4, ⟨.rgb, .u8⟩⟩
+  | .B5G6R5_UNORM => ⟨"B5G6R5_UNORM", .fixed 2, ⟨.rgb, .u8⟩⟩
+  | .B5G5R5A1_UNORM => ⟨"B5G5R5A1_UNORM", .fixed 2, ⟨.rgba, .u8⟩⟩
+  | .B4G4R4A4_UNORM => ⟨"B4G4R4A4_UNORM", .fixed 2, ⟨.rgba, .u8⟩⟩
+  | .A4B4G4R4_UNORM => ⟨"A4B4G4R4_UNORM", .fixed 2, ⟨.rgba, .u8⟩⟩
+  | .R8_SNORM => ⟨"R8_SNORM", .fixed 1, ⟨.gray, .u8⟩⟩
+  | .R8_UNORM => ⟨"R8_UNORM", .fixed 1, ⟨.gray, .u8⟩⟩
+  | .R8G8_UNORM => ⟨"R8G8_UNORM", .fixed 2, ⟨.rgb, .u8⟩⟩
+  | .R8G8_SNORM => ⟨"R8G8_SNORM", .fixed 2, ⟨.rgb, .u8⟩⟩
+  | .A8_UNORM => ⟨"A8_UNORM", .fixed 1, ⟨.alpha, .u8⟩⟩
+  | .R16_UNORM => ⟨"R16_UNORM", .fixed 2, ⟨.gray, .u16⟩⟩
+  | .R16_SNORM => ⟨"R16_SNORM", .fixed 2, ⟨.gray, .u16⟩⟩
+  | .R16G16_UNORM => ⟨"R16G16_UNORM", .fixed 4, ⟨.rgb, .u16⟩⟩
+  | .R16G16_SNORM => ⟨"R16G16_SNORM", .fixed 4, ⟨.rgb, .u16⟩⟩
+  | .R16G16B16A16_UNORM => ⟨"R16G16B16A16_UNORM", .fixed 8, ⟨.rgba, .u16⟩⟩
+  | .R16G16B16A16_SNORM => ⟨"R16G16B16A16_SNORM", .fixed 8, ⟨.rgba, .u16⟩⟩
+  | .R10G10B10A2_UNORM => ⟨"R10G10B10A2_UNORM", .fixed 4, ⟨.rgba, .u16⟩⟩
+  | .R11G11B10_FLOAT => ⟨"R11G11B10_FLOAT", .fixed 4, ⟨.rgb, .f32⟩⟩
+  | .R9G9B9E5_SHAREDEXP => ⟨"R9G9B9E5_SHAREDEXP", .fixed 4, ⟨.rgb, .f32⟩⟩
+  | .R16_FLOAT => ⟨"R16_FLOAT", .fixed 2, ⟨.gray, .f32⟩⟩
+  | .R16G16_FLOAT => ⟨"R16G16_FLOAT", .fixed 4, ⟨.rgb, .f32⟩⟩
+  | .R16G16B16A16_FLOAT => ⟨"R16G16B16A16_FLOAT", .fixed 8, ⟨.rgba, .f32⟩⟩
+  | .R32_FLOAT => ⟨"R32_FLOAT", .fixed 4, ⟨.gray, .f32⟩⟩
+  | .R32G32_FLOAT => ⟨"R32G32_FLOAT", .fixed 8, ⟨.rgb, .f32⟩⟩
+  | .R32G32B32_FLOAT => ⟨"R32G32B32_FLOAT", .fixed 12, ⟨.rgb, .f32⟩⟩
+  | .R32G32B32A32_FLOAT => ⟨"R32G32B32A32_FLOAT", .fixed 16, ⟨.rgba, .f32⟩⟩
+  | .R10G10B10_XR_BIAS_A2_UNORM => ⟨"R10G10B10_XR_BIAS_A2_UNORM", .fixed 4, ⟨.rgba, .f32⟩⟩
+  | .AYUV => ⟨"AYUV", .fixed 4, ⟨.rgba, .u8⟩⟩
+  | .Y410 => ⟨"Y410", .fixed 4, ⟨.rgba, .u16⟩⟩
+  | .Y416 => ⟨"Y416", .fixed 8, ⟨.rgba, .u16⟩⟩
+  | .R1_UNORM => ⟨"R1_UNORM", .block 1 8 1, ⟨.gray, .u8⟩⟩
+  | .R8G8_B8G8_UNORM => ⟨"R8G8_B8G8_UNORM", .block 4 2 1, ⟨.rgb, .u8⟩⟩
+  | .G8R8_G8B8_UNORM => ⟨"G8R8_G8B8_UNORM", .block 4 2 1, ⟨.rgb, .u8⟩⟩
+  | .UYVY => ⟨"UYVY", .block 4 2 1, ⟨.rgb, .u8⟩⟩
+  | .YUY2 => ⟨"YUY2", .block 4 2 1, ⟨.rgb, .u8⟩⟩
+  | .Y210 => ⟨"Y210", .block 8 2 1, ⟨.rgb, .u16⟩⟩
+  | .Y216 => ⟨"Y216", .block 8 2 1, ⟨.rgb, .u16⟩⟩
+  | .NV12 => ⟨"NV12", .biPlanar 1 2 2 2, ⟨.rgb, .u8⟩⟩
+  | .P010 => ⟨"P010", .biPlanar 2 4 2 2, ⟨.rgb, .u16⟩⟩
+  | .P016 => ⟨"P016", .biPlanar 2 4 2 2, ⟨.rgb, .u16⟩⟩
+  | .BC1_UNORM => ⟨"BC1_UNORM", .block 8 4 4, ⟨.rgba, .u8⟩⟩
+  | .BC2_UNORM => ⟨"BC2_UNORM", .block 16 4 4, ⟨.rgba, .u8⟩⟩
+  | .BC2_UNORM_PREMULTIPLIED_ALPHA => ⟨"BC2_UNORM_PREMULTIPLIED_ALPHA", .block 16 4 4, ⟨.rgba, .u8⟩⟩
+  | .BC3_UNORM => ⟨"BC3_UNORM", .block 16 4 4, ⟨.rgba, .u8⟩⟩
+  | .BC3_UNORM_PREMULTIPLIED_ALPHA => ⟨"BC3_UNORM_PREMULTIPLIED_ALPHA", .block 16 4 4, ⟨.rgba, .u8⟩⟩
+  | .BC4_UNORM => ⟨"BC4_UNORM", .block 8 4 4, ⟨.gray, .u8⟩⟩
+  | .BC4_SNORM => ⟨"BC4_SNORM", .block 8 4 4, ⟨.gray, .u8⟩⟩
+  | .BC5_UNORM => ⟨"BC5_UNORM", .block 16 4 4, ⟨.rgb, .u8⟩⟩
+  | .BC5_SNORM => ⟨"BC5_SNORM", .block 16 4 4, ⟨.rgb, .u8⟩⟩
+  | .BC6H_UF16 => ⟨"BC6H_UF16", .block 16 4 4, ⟨.rgb, .f32⟩⟩
+  | .BC6H_SF16 => ⟨"BC6H_SF16", .block 16 4 4, ⟨.rgb, .f32⟩⟩
+  | .BC7_UNORM => ⟨"BC7_UNORM", .block 16 4 4, ⟨.rgba, .u8⟩⟩
+  | .ASTC_4X4_UNORM => ⟨"ASTC_4X4_UNORM", .block 16 4 4, ⟨.rgba, .u8⟩⟩
+  | .ASTC_5X4_UNORM => ⟨"ASTC_5X4_UNORM", .block 16 5 4, ⟨.rgba, .u8⟩⟩
+  | .ASTC_5X5_UNORM => ⟨"ASTC_5X5_UNORM", .block 16 5 5, ⟨.rgba, .u8⟩⟩
+  | .ASTC_6X5_UNORM => ⟨"ASTC_6X5_UNORM", .block 16 6 5, ⟨.rgba, .u8⟩⟩
+  | .ASTC_6X6_UNORM => ⟨"ASTC_6X6_UNORM", .block 16 6 6, ⟨.rgba, .u8⟩⟩
+  | .ASTC_8X5_UNORM => ⟨"ASTC_8X5_UNORM", .block 16 8 5, ⟨.rgba, .u8⟩⟩
+  | .ASTC_8X6_UNORM => ⟨"ASTC_8X6_UNORM", .block 16 8 6, ⟨.rgba, .u8⟩⟩
+  | .ASTC_8X8_UNORM => ⟨"ASTC_8X8_UNORM", .block 16 8 8, ⟨.rgba, .u8⟩⟩
+  | .ASTC_10X5_UNORM => ⟨"ASTC_10X5_UNORM", .block 16 10 5, ⟨.rgba, .u8⟩⟩
+  | .ASTC_10X6_UNORM => ⟨"ASTC_10X6_UNORM", .block 16 10 6, ⟨.rgba, .u8⟩⟩
+  | .ASTC_10X8_UNORM => ⟨"ASTC_10X8_UNORM", .block 16 10 8, ⟨.rgba, .u8⟩⟩
+  | .ASTC_10X10_UNORM => ⟨"ASTC_10X10_UNORM", .block 16 10 10, ⟨.rgba, .u8⟩⟩
+  | .ASTC_12X10_UNORM => ⟨"ASTC_12X10_UNORM", .block 16 12 10, ⟨.rgba, .u8⟩⟩
+  | .ASTC_12X12_UNORM => ⟨"ASTC_12X12_UNORM", .block 16 12 12, ⟨.rgba, .u8⟩⟩
+  | .BC3_UNORM_RXGB => ⟨"BC3_UNORM_RXGB", .block 16 4 4, ⟨.rgb, .u8⟩⟩
+  | .BC3_UNORM_NORMAL => ⟨"BC3_UNORM_NORMAL", .block 16 4 4, ⟨.rgb, .u8⟩⟩
+
 structure FormatRow where
   name : String
   /-- the layout of the format as the format definition gives it (DXGI documentation) -/
   px : PixelInfo
   /-- native colour of the decoder (`Format::color`) -/
   color : ColorFormat
-  /-- `TryFrom<Format> for DxgiFormat` -/
+  /-- `TryFrom<Format> for DxgiFormat` (translated: `SrcTables.formatToDxgi`) -/
   dxgi : Option Nat
-  /-- `TryFrom<Format> for FourCC` -/
+  /-- `TryFrom<Format> for FourCC` (translated: `SrcTables.formatToFourCC`) -/
   fourCC : Option Nat
 
-def Format.row : Format → FormatRow
-  | .R8G8B8_UNORM => ⟨"R8G8B8_UNORM", .fixed 3, ⟨.rgb, .u8⟩, none, none⟩
-  | .B8G8R8_UNORM => ⟨"B8G8R8_UNORM", .fixed 3, ⟨.rgb, .u8⟩, none, none⟩
-  | .R8G8B8A8_UNORM => ⟨"R8G8B8A8_UNORM", .fixed 4, ⟨.rgba, .u8⟩, some 28, none⟩
-  | .R8G8B8A8_SNORM => ⟨"R8G8B8A8_SNORM", .fixed 4, ⟨.rgba, .u8⟩, some 31, none⟩
-  | .B8G8R8A8_UNORM => ⟨"B8G8R8A8_UNORM", .fixed 4, ⟨.rgba, .u8⟩, some 87, none⟩
-  | .B8G8R8X8_UNORM => ⟨"B8G8R8X8_UNORM", .fixed 4, ⟨.rgb, .u8⟩, some 88, none⟩
-  | .B5G6R5_UNORM => ⟨"B5G6R5_UNORM", .fixed 2, ⟨.rgb, .u8⟩, some 85, none⟩
-  | .B5G5R5A1_UNORM => ⟨"B5G5R5A1_UNORM", .fixed 2, ⟨.rgba, .u8⟩, some 86, none⟩
-  | .B4G4R4A4_UNORM => ⟨"B4G4R4A4_UNORM", .fixed 2, ⟨.rgba, .u8⟩, some 115, none⟩
-  | .A4B4G4R4_UNORM => ⟨"A4B4G4R4_UNORM", .fixed 2, ⟨.rgba, .u8⟩, some 191, none⟩
-  | .R8_SNORM => ⟨"R8_SNORM", .fixed 1, ⟨.gray, .u8⟩, some 63, none⟩
-  | .R8_UNORM => ⟨"R8_UNORM", .fixed 1, ⟨.gray, .u8⟩, some 61, none⟩
-  | .R8G8_UNORM => ⟨"R8G8_UNORM", .fixed 2, ⟨.rgb, .u8⟩, some 49, none⟩
-  | .R8G8_SNORM => ⟨"R8G8_SNORM", .fixed 2, ⟨.rgb, .u8⟩, some 51, none⟩
-  | .A8_UNORM => ⟨"A8_UNORM", .fixed 1, ⟨.alpha, .u8⟩, some 65, none⟩
-  | .R16_UNORM => ⟨"R16_UNORM", .fixed 2, ⟨.gray, .u16⟩, some 56, none⟩
-  | .R16_SNORM => ⟨"R16_SNORM", .fixed 2, ⟨.gray, .u16⟩, some 58, none⟩
-  | .R16G16_UNORM => ⟨"R16G16_UNORM", .fixed 4, ⟨.rgb, .u16⟩, some 35, none⟩
-  | .R16G16_SNORM => ⟨"R16G16_SNORM", .fixed 4, ⟨.rgb, .u16⟩, some 37, none⟩
-  | .R16G16B16A16_UNORM => ⟨"R16G16B16A16_UNORM", .fixed 8, ⟨.rgba, .u16⟩, some 11, none⟩
-  | .R16G16B16A16_SNORM => ⟨"R16G16B16A16_SNORM", .fixed 8, ⟨.rgba, .u16⟩, some 13, none⟩
-  | .R10G10B10A2_UNORM => ⟨"R10G10B10A2_UNORM", .fixed 4, ⟨.rgba, .u16⟩, some 24, none⟩
-  | .R11G11B10_FLOAT => ⟨"R11G11B10_FLOAT", .fixed 4, ⟨.rgb, .f32⟩, some 26, none⟩
-  | .R9G9B9E5_SHAREDEXP => ⟨"R9G9B9E5_SHAREDEXP", .fixed 4, ⟨.rgb, .f32⟩, some 67, none⟩
-  | .R16_FLOAT => ⟨"R16_FLOAT", .fixed 2, ⟨.gray, .f32⟩, some 54, none⟩
-  | .R16G16_FLOAT => ⟨"R16G16_FLOAT", .fixed 4, ⟨.rgb, .f32⟩, some 34, none⟩
-  | .R16G16B16A16_FLOAT => ⟨"R16G16B16A16_FLOAT", .fixed 8, ⟨.rgba, .f32⟩, some 10, none⟩
-  | .R32_FLOAT => ⟨"R32_FLOAT", .fixed 4, ⟨.gray, .f32⟩, some 41, none⟩
-  | .R32G32_FLOAT => ⟨"R32G32_FLOAT", .fixed 8, ⟨.rgb, .f32⟩, some 16, none⟩
-  | .R32G32B32_FLOAT => ⟨"R32G32B32_FLOAT", .fixed 12, ⟨.rgb, .f32⟩, some 6, none⟩
-  | .R32G32B32A32_FLOAT => ⟨"R32G32B32A32_FLOAT", .fixed 16, ⟨.rgba, .f32⟩, some 2, none⟩
-  | .R10G10B10_XR_BIAS_A2_UNORM => ⟨"R10G10B10_XR_BIAS_A2_UNORM", .fixed 4, ⟨.rgba, .f32⟩, some 89, none⟩
-  | .AYUV => ⟨"AYUV", .fixed 4, ⟨.rgba, .u8⟩, some 100, none⟩
-  | .Y410 => ⟨"Y410", .fixed 4, ⟨.rgba, .u16⟩, some 101, none⟩
-  | .Y416 => ⟨"Y416", .fixed 8, ⟨.rgba, .u16⟩, some 102, none⟩
-  | .R1_UNORM => ⟨"R1_UNORM", .block 1 8 1, ⟨.gray, .u8⟩, some 66, none⟩
-  | .R8G8_B8G8_UNORM => ⟨"R8G8_B8G8_UNORM", .block 4 2 1, ⟨.rgb, .u8⟩, some 68, some 1195525970⟩
-  | .G8R8_G8B8_UNORM => ⟨"G8R8_G8B8_UNORM", .block 4 2 1, ⟨.rgb, .u8⟩, some 69, some 1111970375⟩
-  | .UYVY => ⟨"UYVY", .block 4 2 1, ⟨.rgb, .u8⟩, none, some 1498831189⟩
-  | .YUY2 => ⟨"YUY2", .block 4 2 1, ⟨.rgb, .u8⟩, some 107, some 844715353⟩
-  | .Y210 => ⟨"Y210", .block 8 2 1, ⟨.rgb, .u16⟩, some 108, none⟩
-  | .Y216 => ⟨"Y216", .block 8 2 1, ⟨.rgb, .u16⟩, some 109, none⟩
-  | .NV12 => ⟨"NV12", .biPlanar 1 2 2 2, ⟨.rgb, .u8⟩, some 103, none⟩
-  | .P010 => ⟨"P010", .biPlanar 2 4 2 2, ⟨.rgb, .u16⟩, some 104, none⟩
-  | .P016 => ⟨"P016", .biPlanar 2 4 2 2, ⟨.rgb, .u16⟩, some 105, none⟩
-  | .BC1_UNORM => ⟨"BC1_UNORM", .block 8 4 4, ⟨.rgba, .u8⟩, some 71, some 827611204⟩
-  | .BC2_UNORM => ⟨"BC2_UNORM", .block 16 4 4, ⟨.rgba, .u8⟩, some 74, some 861165636⟩
-  | .BC2_UNORM_PREMULTIPLIED_ALPHA => ⟨"BC2_UNORM_PREMULTIPLIED_ALPHA", .block 16 4 4, ⟨.rgba, .u8⟩, none, some 844388420⟩
-  | .BC3_UNORM => ⟨"BC3_UNORM", .block 16 4 4, ⟨.rgba, .u8⟩, some 77, some 894720068⟩
-  | .BC3_UNORM_PREMULTIPLIED_ALPHA => ⟨"BC3_UNORM_PREMULTIPLIED_ALPHA", .block 16 4 4, ⟨.rgba, .u8⟩, none, some 877942852⟩
-  | .BC4_UNORM => ⟨"BC4_UNORM", .block 8 4 4, ⟨.gray, .u8⟩, some 80, some 1429488450⟩
-  | .BC4_SNORM => ⟨"BC4_SNORM", .block 8 4 4, ⟨.gray, .u8⟩, some 81, some 1395934018⟩
-  | .BC5_UNORM => ⟨"BC5_UNORM", .block 16 4 4, ⟨.rgb, .u8⟩, some 83, some 1429553986⟩
-  | .BC5_SNORM => ⟨"BC5_SNORM", .block 16 4 4, ⟨.rgb, .u8⟩, some 84, some 1395999554⟩
-  | .BC6H_UF16 => ⟨"BC6H_UF16", .block 16 4 4, ⟨.rgb, .f32⟩, some 95, none⟩
-  | .BC6H_SF16 => ⟨"BC6H_SF16", .block 16 4 4, ⟨.rgb, .f32⟩, some 96, none⟩
-  | .BC7_UNORM => ⟨"BC7_UNORM", .block 16 4 4, ⟨.rgba, .u8⟩, some 98, none⟩
-  | .ASTC_4X4_UNORM => ⟨"ASTC_4X4_UNORM", .block 16 4 4, ⟨.rgba, .u8⟩, some 134, none⟩
-  | .ASTC_5X4_UNORM => ⟨"ASTC_5X4_UNORM", .block 16 5 4, ⟨.rgba, .u8⟩, some 138, none⟩
-  | .ASTC_5X5_UNORM => ⟨"ASTC_5X5_UNORM", .block 16 5 5, ⟨.rgba, .u8⟩, some 142, none⟩
-  | .ASTC_6X5_UNORM => ⟨"ASTC_6X5_UNORM", .block 16 6 5, ⟨.rgba, .u8⟩, some 146, none⟩
-  | .ASTC_6X6_UNORM => ⟨"ASTC_6X6_UNORM", .block 16 6 6, ⟨.rgba, .u8⟩, some 150, none⟩
-  | .ASTC_8X5_UNORM => ⟨"ASTC_8X5_UNORM", .block 16 8 5, ⟨.rgba, .u8⟩, some 154, none⟩
-  | .ASTC_8X6_UNORM => ⟨"ASTC_8X6_UNORM", .block 16 8 6, ⟨.rgba, .u8⟩, some 158, none⟩
-  | .ASTC_8X8_UNORM => ⟨"ASTC_8X8_UNORM", .block 16 8 8, ⟨.rgba, .u8⟩, some 162, none⟩
-  | .ASTC_10X5_UNORM => ⟨"ASTC_10X5_UNORM", .block 16 10 5, ⟨.rgba, .u8⟩, some 166, none⟩
-  | .ASTC_10X6_UNORM => ⟨"ASTC_10X6_UNORM", .block 16 10 6, ⟨.rgba, .u8⟩, some 170, none⟩
-  | .ASTC_10X8_UNORM => ⟨"ASTC_10X8_UNORM", .block 16 10 8, ⟨.rgba, .u8⟩, some 174, none⟩
-  | .ASTC_10X10_UNORM => ⟨"ASTC_10X10_UNORM", .block 16 10 10, ⟨.rgba, .u8⟩, some 178, none⟩
-  | .ASTC_12X10_UNORM => ⟨"ASTC_12X10_UNORM", .block 16 12 10, ⟨.rgba, .u8⟩, some 182, none⟩
-  | .ASTC_12X12_UNORM => ⟨"ASTC_12X12_UNORM", .block 16 12 12, ⟨.rgba, .u8⟩, some 186, none⟩
-  | .BC3_UNORM_RXGB => ⟨"BC3_UNORM_RXGB", .block 16 4 4, ⟨.rgb, .u8⟩, none, some 1111971922⟩
-  | .BC3_UNORM_NORMAL => ⟨"BC3_UNORM_NORMAL", .block 16 4 4, ⟨.rgb, .u8⟩, some 77, none⟩
+def Format.row (f : Format) : FormatRow :=
+  { name := f.spec.name, px := f.spec.px, color := f.spec.color,
+    dxgi := SrcTables.formatToDxgi.lookup f.toH, fourCC := SrcTables.formatToFourCC.lookup f.toH }
 
 def Format.name (f : Format) : String := f.row.name
 
@@ -191,178 +364,15 @@ structure DxgiRow where
   /-- `detect::dxgi_format_to_supported` -/
   fmt : Option Format
 
-/-- all 162 valid `DXGI_FORMAT` codes (`TryFrom<u32> for DxgiFormat` accepts exactly these) -/
-def dxgiTable : List DxgiRow := [
-  ⟨0, "UNKNOWN", none, none⟩,
-  ⟨1, "R32G32B32A32_TYPELESS", some (.fixed 16), some .R32G32B32A32_FLOAT⟩,
-  ⟨2, "R32G32B32A32_FLOAT", some (.fixed 16), some .R32G32B32A32_FLOAT⟩,
-  ⟨3, "R32G32B32A32_UINT", some (.fixed 16), none⟩,
-  ⟨4, "R32G32B32A32_SINT", some (.fixed 16), none⟩,
-  ⟨5, "R32G32B32_TYPELESS", some (.fixed 12), some .R32G32B32_FLOAT⟩,
-  ⟨6, "R32G32B32_FLOAT", some (.fixed 12), some .R32G32B32_FLOAT⟩,
-  ⟨7, "R32G32B32_UINT", some (.fixed 12), none⟩,
-  ⟨8, "R32G32B32_SINT", some (.fixed 12), none⟩,
-  ⟨9, "R16G16B16A16_TYPELESS", some (.fixed 8), some .R16G16B16A16_UNORM⟩,
-  ⟨10, "R16G16B16A16_FLOAT", some (.fixed 8), some .R16G16B16A16_FLOAT⟩,
-  ⟨11, "R16G16B16A16_UNORM", some (.fixed 8), some .R16G16B16A16_UNORM⟩,
-  ⟨12, "R16G16B16A16_UINT", some (.fixed 8), none⟩,
-  ⟨13, "R16G16B16A16_SNORM", some (.fixed 8), some .R16G16B16A16_SNORM⟩,
-  ⟨14, "R16G16B16A16_SINT", some (.fixed 8), none⟩,
-  ⟨15, "R32G32_TYPELESS", some (.fixed 8), some .R32G32_FLOAT⟩,
-  ⟨16, "R32G32_FLOAT", some (.fixed 8), some .R32G32_FLOAT⟩,
-  ⟨17, "R32G32_UINT", some (.fixed 8), none⟩,
-  ⟨18, "R32G32_SINT", some (.fixed 8), none⟩,
-  ⟨19, "R32G8X24_TYPELESS", some (.fixed 8), none⟩,
-  ⟨20, "D32_FLOAT_S8X24_UINT", some (.fixed 8), none⟩,
-  ⟨21, "R32_FLOAT_X8X24_TYPELESS", some (.fixed 8), none⟩,
-  ⟨22, "X32_TYPELESS_G8X24_UINT", some (.fixed 8), none⟩,
-  ⟨23, "R10G10B10A2_TYPELESS", some (.fixed 4), some .R10G10B10A2_UNORM⟩,
-  ⟨24, "R10G10B10A2_UNORM", some (.fixed 4), some .R10G10B10A2_UNORM⟩,
-  ⟨25, "R10G10B10A2_UINT", some (.fixed 4), none⟩,
-  ⟨26, "R11G11B10_FLOAT", some (.fixed 4), some .R11G11B10_FLOAT⟩,
-  ⟨27, "R8G8B8A8_TYPELESS", some (.fixed 4), some .R8G8B8A8_UNORM⟩,
-  ⟨28, "R8G8B8A8_UNORM", some (.fixed 4), some .R8G8B8A8_UNORM⟩,
-  ⟨29, "R8G8B8A8_UNORM_SRGB", some (.fixed 4), some .R8G8B8A8_UNORM⟩,
-  ⟨30, "R8G8B8A8_UINT", some (.fixed 4), none⟩,
-  ⟨31, "R8G8B8A8_SNORM", some (.fixed 4), some .R8G8B8A8_SNORM⟩,
-  ⟨32, "R8G8B8A8_SINT", some (.fixed 4), none⟩,
-  ⟨33, "R16G16_TYPELESS", some (.fixed 4), some .R16G16_UNORM⟩,
-  ⟨34, "R16G16_FLOAT", some (.fixed 4), some .R16G16_FLOAT⟩,
-  ⟨35, "R16G16_UNORM", some (.fixed 4), some .R16G16_UNORM⟩,
-  ⟨36, "R16G16_UINT", some (.fixed 4), none⟩,
-  ⟨37, "R16G16_SNORM", some (.fixed 4), some .R16G16_SNORM⟩,
-  ⟨38, "R16G16_SINT", some (.fixed 4), none⟩,
-  ⟨39, "R32_TYPELESS", some (.fixed 4), some .R32_FLOAT⟩,
-  ⟨40, "D32_FLOAT", some (.fixed 4), none⟩,
-  ⟨41, "R32_FLOAT", some (.fixed 4), some .R32_FLOAT⟩,
-  ⟨42, "R32_UINT", some (.fixed 4), none⟩,
-  ⟨43, "R32_SINT", some (.fixed 4), none⟩,
-  ⟨44, "R24G8_TYPELESS", some (.fixed 4), none⟩,
-  ⟨45, "D24_UNORM_S8_UINT", some (.fixed 4), none⟩,
-  ⟨46, "R24_UNORM_X8_TYPELESS", some (.fixed 4), none⟩,
-  ⟨47, "X24_TYPELESS_G8_UINT", some (.fixed 4), none⟩,
-  ⟨48, "R8G8_TYPELESS", some (.fixed 2), none⟩,
-  ⟨49, "R8G8_UNORM", some (.fixed 2), some .R8G8_UNORM⟩,
-  ⟨50, "R8G8_UINT", some (.fixed 2), none⟩,
-  ⟨51, "R8G8_SNORM", some (.fixed 2), some .R8G8_SNORM⟩,
-  ⟨52, "R8G8_SINT", some (.fixed 2), none⟩,
-  ⟨53, "R16_TYPELESS", some (.fixed 2), some .R16_UNORM⟩,
-  ⟨54, "R16_FLOAT", some (.fixed 2), some .R16_FLOAT⟩,
-  ⟨55, "D16_UNORM", some (.fixed 2), none⟩,
-  ⟨56, "R16_UNORM", some (.fixed 2), some .R16_UNORM⟩,
-  ⟨57, "R16_UINT", some (.fixed 2), none⟩,
-  ⟨58, "R16_SNORM", some (.fixed 2), some .R16_SNORM⟩,
-  ⟨59, "R16_SINT", some (.fixed 2), none⟩,
-  ⟨60, "R8_TYPELESS", some (.fixed 1), some .R8_UNORM⟩,
-  ⟨61, "R8_UNORM", some (.fixed 1), some .R8_UNORM⟩,
-  ⟨62, "R8_UINT", some (.fixed 1), none⟩,
-  ⟨63, "R8_SNORM", some (.fixed 1), some .R8_SNORM⟩,
-  ⟨64, "R8_SINT", some (.fixed 1), none⟩,
-  ⟨65, "A8_UNORM", some (.fixed 1), some .A8_UNORM⟩,
-  ⟨66, "R1_UNORM", some (.block 1 8 1), some .R1_UNORM⟩,
-  ⟨67, "R9G9B9E5_SHAREDEXP", some (.fixed 4), some .R9G9B9E5_SHAREDEXP⟩,
-  ⟨68, "R8G8_B8G8_UNORM", some (.block 4 2 1), some .R8G8_B8G8_UNORM⟩,
-  ⟨69, "G8R8_G8B8_UNORM", some (.block 4 2 1), some .G8R8_G8B8_UNORM⟩,
-  ⟨70, "BC1_TYPELESS", some (.block 8 4 4), some .BC1_UNORM⟩,
-  ⟨71, "BC1_UNORM", some (.block 8 4 4), some .BC1_UNORM⟩,
-  ⟨72, "BC1_UNORM_SRGB", some (.block 8 4 4), some .BC1_UNORM⟩,
-  ⟨73, "BC2_TYPELESS", some (.block 16 4 4), some .BC2_UNORM⟩,
-  ⟨74, "BC2_UNORM", some (.block 16 4 4), some .BC2_UNORM⟩,
-  ⟨75, "BC2_UNORM_SRGB", some (.block 16 4 4), some .BC2_UNORM⟩,
-  ⟨76, "BC3_TYPELESS", some (.block 16 4 4), some .BC3_UNORM⟩,
-  ⟨77, "BC3_UNORM", some (.block 16 4 4), some .BC3_UNORM⟩,
-  ⟨78, "BC3_UNORM_SRGB", some (.block 16 4 4), some .BC3_UNORM⟩,
-  ⟨79, "BC4_TYPELESS", some (.block 8 4 4), some .BC4_UNORM⟩,
-  ⟨80, "BC4_UNORM", some (.block 8 4 4), some .BC4_UNORM⟩,
-  ⟨81, "BC4_SNORM", some (.block 8 4 4), some .BC4_SNORM⟩,
-  ⟨82, "BC5_TYPELESS", some (.block 16 4 4), some .BC5_UNORM⟩,
-  ⟨83, "BC5_UNORM", some (.block 16 4 4), some .BC5_UNORM⟩,
-  ⟨84, "BC5_SNORM", some (.block 16 4 4), some .BC5_SNORM⟩,
-  ⟨85, "B5G6R5_UNORM", some (.fixed 2), some .B5G6R5_UNORM⟩,
-  ⟨86, "B5G5R5A1_UNORM", some (.fixed 2), some .B5G5R5A1_UNORM⟩,
-  ⟨87, "B8G8R8A8_UNORM", some (.fixed 4), some .B8G8R8A8_UNORM⟩,
-  ⟨88, "B8G8R8X8_UNORM", some (.fixed 4), some .B8G8R8X8_UNORM⟩,
-  ⟨89, "R10G10B10_XR_BIAS_A2_UNORM", some (.fixed 4), some .R10G10B10_XR_BIAS_A2_UNORM⟩,
-  ⟨90, "B8G8R8A8_TYPELESS", some (.fixed 4), some .B8G8R8A8_UNORM⟩,
-  ⟨91, "B8G8R8A8_UNORM_SRGB", some (.fixed 4), some .B8G8R8A8_UNORM⟩,
-  ⟨92, "B8G8R8X8_TYPELESS", some (.fixed 4), some .B8G8R8X8_UNORM⟩,
-  ⟨93, "B8G8R8X8_UNORM_SRGB", some (.fixed 4), some .B8G8R8X8_UNORM⟩,
-  ⟨94, "BC6H_TYPELESS", some (.block 16 4 4), some .BC6H_UF16⟩,
-  ⟨95, "BC6H_UF16", some (.block 16 4 4), some .BC6H_UF16⟩,
-  ⟨96, "BC6H_SF16", some (.block 16 4 4), some .BC6H_SF16⟩,
-  ⟨97, "BC7_TYPELESS", some (.block 16 4 4), some .BC7_UNORM⟩,
-  ⟨98, "BC7_UNORM", some (.block 16 4 4), some .BC7_UNORM⟩,
-  ⟨99, "BC7_UNORM_SRGB", some (.block 16 4 4), some .BC7_UNORM⟩,
-  ⟨100, "AYUV", some (.fixed 4), some .AYUV⟩,
-  ⟨101, "Y410", some (.fixed 4), some .Y410⟩,
-  ⟨102, "Y416", some (.fixed 8), some .Y416⟩,
-  ⟨103, "NV12", some (.biPlanar 1 2 2 2), some .NV12⟩,
-  ⟨104, "P010", some (.biPlanar 2 4 2 2), some .P010⟩,
-  ⟨105, "P016", some (.biPlanar 2 4 2 2), some .P016⟩,
-  ⟨106, "OPAQUE_420", some (.biPlanar 1 2 2 2), none⟩,
-  ⟨107, "YUY2", some (.block 4 2 1), some .YUY2⟩,
-  ⟨108, "Y210", some (.block 8 2 1), some .Y210⟩,
-  ⟨109, "Y216", some (.block 8 2 1), some .Y216⟩,
-  ⟨110, "NV11", some (.biPlanar 1 2 4 1), none⟩,
-  ⟨111, "AI44", some (.fixed 1), none⟩,
-  ⟨112, "IA44", some (.fixed 1), none⟩,
-  ⟨113, "P8", some (.fixed 1), none⟩,
-  ⟨114, "A8P8", some (.fixed 2), none⟩,
-  ⟨115, "B4G4R4A4_UNORM", some (.fixed 2), some .B4G4R4A4_UNORM⟩,
-  ⟨130, "P208", some (.biPlanar 1 2 2 1), none⟩,
-  ⟨131, "V208", none, none⟩,
-  ⟨132, "V408", some (.fixed 4), none⟩,
-  ⟨133, "ASTC_4X4_TYPELESS", some (.block 16 4 4), some .ASTC_4X4_UNORM⟩,
-  ⟨134, "ASTC_4X4_UNORM", some (.block 16 4 4), some .ASTC_4X4_UNORM⟩,
-  ⟨135, "ASTC_4X4_UNORM_SRGB", some (.block 16 4 4), some .ASTC_4X4_UNORM⟩,
-  ⟨137, "ASTC_5X4_TYPELESS", some (.block 16 5 4), some .ASTC_5X4_UNORM⟩,
-  ⟨138, "ASTC_5X4_UNORM", some (.block 16 5 4), some .ASTC_5X4_UNORM⟩,
-  ⟨139, "ASTC_5X4_UNORM_SRGB", some (.block 16 5 4), some .ASTC_5X4_UNORM⟩,
-  ⟨141, "ASTC_5X5_TYPELESS", some (.block 16 5 5), some .ASTC_5X5_UNORM⟩,
-  ⟨142, "ASTC_5X5_UNORM", some (.block 16 5 5), some .ASTC_5X5_UNORM⟩,
-  ⟨143, "ASTC_5X5_UNORM_SRGB", some (.block 16 5 5), some .ASTC_5X5_UNORM⟩,
-  ⟨145, "ASTC_6X5_TYPELESS", some (.block 16 6 5), some .ASTC_6X5_UNORM⟩,
-  ⟨146, "ASTC_6X5_UNORM", some (.block 16 6 5), some .ASTC_6X5_UNORM⟩,
-  ⟨147, "ASTC_6X5_UNORM_SRGB", some (.block 16 6 5), some .ASTC_6X5_UNORM⟩,
-  ⟨149, "ASTC_6X6_TYPELESS", some (.block 16 6 6), some .ASTC_6X6_UNORM⟩,
-  ⟨150, "ASTC_6X6_UNORM", some (.block 16 6 6), some .ASTC_6X6_UNORM⟩,
-  ⟨151, "ASTC_6X6_UNORM_SRGB", some (.block 16 6 6), some .ASTC_6X6_UNORM⟩,
-  ⟨153, "ASTC_8X5_TYPELESS", some (.block 16 8 5), some .ASTC_8X5_UNORM⟩,
-  ⟨154, "ASTC_8X5_UNORM", some (.block 16 8 5), some .ASTC_8X5_UNORM⟩,
-  ⟨155, "ASTC_8X5_UNORM_SRGB", some (.block 16 8 5), some .ASTC_8X5_UNORM⟩,
-  ⟨157, "ASTC_8X6_TYPELESS", some (.block 16 8 6), some .ASTC_8X6_UNORM⟩,
-  ⟨158, "ASTC_8X6_UNORM", some (.block 16 8 6), some .ASTC_8X6_UNORM⟩,
-  ⟨159, "ASTC_8X6_UNORM_SRGB", some (.block 16 8 6), some .ASTC_8X6_UNORM⟩,
-  ⟨161, "ASTC_8X8_TYPELESS", some (.block 16 8 8), some .ASTC_8X8_UNORM⟩,
-  ⟨162, "ASTC_8X8_UNORM", some (.block 16 8 8), some .ASTC_8X8_UNORM⟩,
-  ⟨163, "ASTC_8X8_UNORM_SRGB", some (.block 16 8 8), some .ASTC_8X8_UNORM⟩,
-  ⟨165, "ASTC_10X5_TYPELESS", some (.block 16 10 5), some .ASTC_10X5_UNORM⟩,
-  ⟨166, "ASTC_10X5_UNORM", some (.block 16 10 5), some .ASTC_10X5_UNORM⟩,
-  ⟨167, "ASTC_10X5_UNORM_SRGB", some (.block 16 10 5), some .ASTC_10X5_UNORM⟩,
-  ⟨169, "ASTC_10X6_TYPELESS", some (.block 16 10 6), some .ASTC_10X6_UNORM⟩,
-  ⟨170, "ASTC_10X6_UNORM", some (.block 16 10 6), some .ASTC_10X6_UNORM⟩,
-  ⟨171, "ASTC_10X6_UNORM_SRGB", some (.block 16 10 6), some .ASTC_10X6_UNORM⟩,
-  ⟨173, "ASTC_10X8_TYPELESS", some (.block 16 10 8), some .ASTC_10X8_UNORM⟩,
-  ⟨174, "ASTC_10X8_UNORM", some (.block 16 10 8), some .ASTC_10X8_UNORM⟩,
-  ⟨175, "ASTC_10X8_UNORM_SRGB", some (.block 16 10 8), some .ASTC_10X8_UNORM⟩,
-  ⟨177, "ASTC_10X10_TYPELESS", some (.block 16 10 10), some .ASTC_10X10_UNORM⟩,
-  ⟨178, "ASTC_10X10_UNORM", some (.block 16 10 10), some .ASTC_10X10_UNORM⟩,
-  ⟨179, "ASTC_10X10_UNORM_SRGB", some (.block 16 10 10), some .ASTC_10X10_UNORM⟩,
-  ⟨181, "ASTC_12X10_TYPELESS", some (.block 16 12 10), some .ASTC_12X10_UNORM⟩,
-  ⟨182, "ASTC_12X10_UNORM", some (.block 16 12 10), some .ASTC_12X10_UNORM⟩,
-  ⟨183, "ASTC_12X10_UNORM_SRGB", some (.block 16 12 10), some .ASTC_12X10_UNORM⟩,
-  ⟨185, "ASTC_12X12_TYPELESS", some (.block 16 12 12), some .ASTC_12X12_UNORM⟩,
-  ⟨186, "ASTC_12X12_UNORM", some (.block 16 12 12), some .ASTC_12X12_UNORM⟩,
-  ⟨187, "ASTC_12X12_UNORM_SRGB", some (.block 16 12 12), some .ASTC_12X12_UNORM⟩,
-  ⟨191, "A4B4G4R4_UNORM", some (.fixed 2), some .A4B4G4R4_UNORM⟩
-]
+/-- one row per named `DxgiFormat` constant (rows translated from `define_dxgi_formats!`, `TryFrom<DxgiFormat> for
+PixelInfo` and `dxgi_format_to_supported`); `dxgi_codes_complete`: these are exactly the accepted codes -/
+def dxgiTable : List DxgiRow :=
+  SrcTables.dxgiNamed.map fun r => ⟨r.code, r.name, r.px, r.supported.map Format.ofH⟩
 
 def dxgiRow? (code : Nat) : Option DxgiRow := dxgiTable.find? (·.code == code)
 
-/-- `DxgiFormat::try_from(code).is_ok()`, written as the source's range pattern -/
-def dxgiValid (v : Nat) : Bool :=
-  v ≤ 115 || (130 ≤ v && v ≤ 135) ||
-  (137 ≤ v && v ≤ 187 && v % 4 ≠ 0) || v == 191
+/-- `DxgiFormat::try_from(code).is_ok()`: the runs of accepted codes, translated from the source's range pattern -/
+def dxgiValid (v : Nat) : Bool := SrcTables.dxgiValidRanges.any fun r => decide (r.1 ≤ v) && decide (v ≤ r.2)
 
 /-- `PixelInfo::try_from(dxgi)` -/
 def dxgiPixelInfo (code : Nat) : Option PixelInfo := (dxgiRow? code).bind (·.px)
@@ -370,13 +380,9 @@ def dxgiPixelInfo (code : Nat) : Option PixelInfo := (dxgiRow? code).bind (·.px
 /-- `detect::dxgi_format_to_supported` -/
 def dxgiToFormat (code : Nat) : Option Format := (dxgiRow? code).bind (·.fmt)
 
-/-- `detect::special_cases`: alpha mode `Premultiplied = 2` with BC2_UNORM (74) / BC3_UNORM (77) -/
+/-- `detect::special_cases` (rows translated: alpha mode `Premultiplied = 2` with BC2_UNORM (74) / BC3_UNORM (77)) -/
 def specialCases (code alphaMode : Nat) : Option Format :=
-  if alphaMode = 2 then
-    if code = 74 then some .BC2_UNORM_PREMULTIPLIED_ALPHA
-    else if code = 77 then some .BC3_UNORM_PREMULTIPLIED_ALPHA
-    else none
-  else none
+  (SrcTables.specialCases.find? fun t => t.1 == alphaMode && t.2.1 == code).map fun t => Format.ofH t.2.2
 
 /-! ## FourCC -/
 
@@ -400,18 +406,11 @@ def FCC_GRGB := fcc 'G' 'R' 'G' 'B'
 def FCC_YUY2 := fcc 'Y' 'U' 'Y' '2'
 def FCC_UYVY := fcc 'U' 'Y' 'V' 'Y'
 
-/-- `detect::four_cc_to_dxgi` (first stage of `four_cc_to_supported`) -/
-def fourCCDxgiTable : List (Nat × Nat) := [
-  (FCC_DXT1, 71), (FCC_DXT3, 74), (FCC_DXT5, 77),
-  (FCC_ATI1, 80), (FCC_BC4U, 80), (FCC_BC4S, 81),
-  (FCC_ATI2, 83), (FCC_BC5U, 83), (FCC_BC5S, 84),
-  (FCC_RGBG, 68), (FCC_GRGB, 69), (FCC_YUY2, 107),
-  (36, 11), (110, 13), (111, 54), (112, 34), (113, 10), (114, 41), (115, 16), (116, 2)]
+/-- `detect::four_cc_to_dxgi` (first stage of `four_cc_to_supported`; rows translated) -/
+def fourCCDxgiTable : List (Nat × Nat) := SrcTables.fourCCToDxgi
 
-/-- second stage of `four_cc_to_supported`: FourCCs without DXGI equivalent -/
-def fourCCDirectTable : List (Nat × Format) := [
-  (FCC_DXT2, .BC2_UNORM_PREMULTIPLIED_ALPHA), (FCC_DXT4, .BC3_UNORM_PREMULTIPLIED_ALPHA),
-  (FCC_RXGB, .BC3_UNORM_RXGB), (FCC_UYVY, .UYVY)]
+/-- second stage of `four_cc_to_supported`: FourCCs without DXGI equivalent (rows translated) -/
+def fourCCDirectTable : List (Nat × Format) := SrcTables.fourCCDirect.map fun p => (p.1, Format.ofH p.2)
 
 def fourCCToDxgi (cc : Nat) : Option Nat := (fourCCDxgiTable.find? (·.1 == cc)).map (·.2)
 
@@ -447,27 +446,9 @@ def PF_LUMINANCE := 0x20000
 def PF_LUMINANCE_ALPHA := 0x20001
 def PF_BUMP_DUDV := 0x80000
 
-/-- `detect::KNOWN_PIXEL_FORMATS`, in table order (the first matching row wins) -/
-def maskRows : List MaskRow := [
-  ⟨⟨PF_ALPHA, 8, 0, 0, 0, 0xFF⟩, some 65, .A8_UNORM⟩,
-  ⟨⟨PF_LUMINANCE, 8, 0xFF, 0, 0, 0⟩, some 61, .R8_UNORM⟩,
-  ⟨⟨PF_RGB + PF_LUMINANCE, 8, 0xFF, 0, 0, 0⟩, some 61, .R8_UNORM⟩,
-  ⟨⟨PF_LUMINANCE, 16, 0xFFFF, 0, 0, 0⟩, some 56, .R16_UNORM⟩,
-  ⟨⟨PF_RGB, 16, 0xF800, 0x07E0, 0x001F, 0⟩, some 85, .B5G6R5_UNORM⟩,
-  ⟨⟨PF_RGB, 32, 0xFF0000, 0xFF00, 0xFF, 0⟩, some 88, .B8G8R8X8_UNORM⟩,
-  ⟨⟨PF_RGB, 32, 0xFFFF, 0xFFFF0000, 0, 0⟩, some 35, .R16G16_UNORM⟩,
-  ⟨⟨PF_RGB, 16, 0xFF, 0xFF00, 0, 0⟩, some 49, .R8G8_UNORM⟩,
-  ⟨⟨PF_RGB, 24, 0xFF0000, 0xFF00, 0xFF, 0⟩, none, .B8G8R8_UNORM⟩,
-  ⟨⟨PF_RGB, 24, 0xFF, 0xFF00, 0xFF0000, 0⟩, none, .R8G8B8_UNORM⟩,
-  ⟨⟨PF_RGBA, 16, 0xF00, 0xF0, 0xF, 0xF000⟩, some 115, .B4G4R4A4_UNORM⟩,
-  ⟨⟨PF_RGBA, 16, 0x7C00, 0x3E0, 0x1F, 0x8000⟩, some 86, .B5G5R5A1_UNORM⟩,
-  ⟨⟨PF_RGBA, 32, 0xFF0000, 0xFF00, 0xFF, 0xFF000000⟩, some 87, .B8G8R8A8_UNORM⟩,
-  ⟨⟨PF_RGBA, 32, 0xFF, 0xFF00, 0xFF0000, 0xFF000000⟩, some 28, .R8G8B8A8_UNORM⟩,
-  ⟨⟨PF_RGBA, 32, 0x3FF00000, 0xFFC00, 0x3FF, 0xC0000000⟩, some 24, .R10G10B10A2_UNORM⟩,
-  ⟨⟨PF_BUMP_DUDV, 32, 0xFF, 0xFF00, 0xFF0000, 0xFF000000⟩, some 31, .R8G8B8A8_SNORM⟩,
-  ⟨⟨PF_BUMP_DUDV, 16, 0xFF, 0xFF00, 0, 0⟩, some 51, .R8G8_SNORM⟩,
-  ⟨⟨PF_BUMP_DUDV, 32, 0xFFFF, 0xFFFF0000, 0, 0⟩, some 37, .R16G16_SNORM⟩,
-  ⟨⟨PF_LUMINANCE_ALPHA, 16, 0xFF, 0, 0, 0xFF00⟩, some 49, .R8G8_UNORM⟩]
+/-- `detect::KNOWN_PIXEL_FORMATS`, in table order (the first matching row wins); rows translated -/
+def maskRows : List MaskRow :=
+  SrcTables.knownPixelFormats.map fun r => ⟨⟨r.flags, r.bitCount, r.r, r.g, r.b, r.a⟩, r.dxgi, Format.ofH r.fmt⟩
 
 /-- `PFPattern::matches` -/
 def MaskRow.matches (row : MaskRow) (pf : MaskPF) : Bool :=
@@ -489,15 +470,12 @@ def bitCountValid (n : Nat) : Bool := n == 8 || n == 16 || n == 24 || n == 32
 
 /-! ## `From<Format> for PixelInfo`, headers -/
 
-/-- `impl From<Format> for PixelInfo`: three explicit arms, everything else through the canonical
-DXGI code and the DXGI table with two `unwrap()`s; `none` = panic. -/
+/-- `impl From<Format> for PixelInfo`: the explicit arms (rows translated: `SrcTables.formatPixelInfoDirect`),
+everything else through the canonical DXGI code and the DXGI table with two `unwrap()`s; `none` = panic. -/
 def formatPixelInfoP (f : Format) : Option PixelInfo :=
-  match f with
-  | .R8G8B8_UNORM | .B8G8R8_UNORM => some (.fixed 3)
-  | .UYVY => some (.block 4 2 1)
-  | .BC2_UNORM_PREMULTIPLIED_ALPHA | .BC3_UNORM_PREMULTIPLIED_ALPHA | .BC3_UNORM_RXGB =>
-    some (.block 16 4 4)
-  | f =>
+  match SrcTables.formatPixelInfoDirect.lookup f.toH with
+  | some p => some p
+  | none =>
     match f.row.dxgi with
     | none => none
     | some dx => dxgiPixelInfo dx
